@@ -250,3 +250,56 @@ _mk("bin_count_and_last_small", ["bin_area"])
 _mk("bin_count_and_small", ["bin_area", "temp_i"])
 _mk("bin_count_and_last_skyline", ["wh"])
 _mk("bin_count_and_lowest_skyline", ["wh"])
+
+
+# ====================================================================== class wrappers: scratch allocation and call sites (C13, C02)
+from pyvc.spec import OBJ, PYINT, Summary  # noqa: E402
+
+_super = {"call super().__init__ #0": Summary({}, [], "base-class constructor (stores the instance)")}
+# facts about a packing handed to evaluate (PackingSpace / decoders) phrased for the wrappers
+_X = ["n >= 1 and len(x) == n", "forall(r, 0, n, 1 <= x[r, IDX_BIN] and x[r, IDX_BIN] <= n)", "D_hi <= 2**63 - 1 and n * n <= 2**62"]
+_XA = _X + ["A >= 0 and n * A <= 2**61", "forall(r, 0, n, 0 <= rarea(x, r) and rarea(x, r) <= A)",
+            "forall(r, 0, n, -2**62 <= x[r, IDX_RIGHT_X] - x[r, IDX_LEFT_X] and x[r, IDX_RIGHT_X] - x[r, IDX_LEFT_X] <= 2**62"
+            " and -2**62 <= x[r, IDX_TOP_Y] - x[r, IDX_BOTTOM_Y] and x[r, IDX_TOP_Y] - x[r, IDX_BOTTOM_Y] <= 2**62)"]
+
+contract(
+    OB + "bin_count_and_empty:BinCountAndEmpty.__init__", props="C13 C02",
+    params={"instance": A2("ID", cols=3)}, ghosts={"n": PYINT}, i64=False,
+    attrs={"instance.n_items": "n", "instance.dtype": "(ID_lo, ID_hi)"},
+    requires=["n >= 1 and ID_hi >= n + 1 and ID_hi <= 2**63 - 1"],       # Instance.__new__: dtype holds n_items + 1
+    summaries=_super,
+    ensures=[tag("C13 C02", "scratch", "len(self.__temp) == n and dtype_hi(self.__temp) >= n and dtype_hi(self.__temp) <= 2**63 - 1")],
+)
+contract(
+    OB + "bin_count_and_empty:BinCountAndEmpty.evaluate", props="C13 C02",
+    params={"x": A2("D", cols=6)}, ghosts={"n": PYINT}, fields={"self.__temp": A1("T", uninit=True)}, i64=False,
+    requires=_X + ["len(self.__temp) == n and T_hi >= n and T_hi <= 2**63 - 1"],
+    calls={"bin_count_and_empty": {"n": "n"}}, returns=INT,
+)
+contract(
+    OB + "bin_count_and_small:BinCountAndSmall.__init__", props="C13 C02",
+    params={"instance": A2("ID", cols=3)}, ghosts={"n": PYINT}, i64=False,
+    attrs={"instance.n_items": "n"}, requires=["n >= 1"], summaries=_super,
+    ensures=[tag("C13 C02", "scratch", "len(self.__temp) == n and dtype_lo(self.__temp) == -2**63 and dtype_hi(self.__temp) == 2**63 - 1")],
+)
+contract(
+    OB + "bin_count_and_small:BinCountAndSmall.evaluate", props="C13 C02",
+    params={"x": A2("D", cols=6)}, ghosts={"n": PYINT, "A": PYINT, "BA": PYINT},
+    fields={"self.__temp": A1("T", uninit=True)}, i64=False,
+    attrs={"self._bin_size": "BA"},
+    requires=_XA + ["BA >= 1 and n * BA <= 2**61", "len(self.__temp) == n and T_lo == -2**63 and T_hi == 2**63 - 1"],
+    calls={"bin_count_and_small": {"n": "n", "A": "A"}}, returns=INT,
+)
+contract(
+    OB + "bin_count_and_last_small:BinCountAndLastSmall.evaluate", props="C13 C02",
+    params={"x": A2("D", cols=6)}, ghosts={"n": PYINT, "A": PYINT, "BA": PYINT}, i64=False,
+    attrs={"self._bin_size": "BA"},
+    requires=_XA + ["BA >= 1 and n * BA <= 2**61"],
+    calls={"bin_count_and_last_small": {"n": "n", "A": "A"}}, returns=INT,
+)
+contract(
+    OB + "bin_count_and_last_small:BinCountAndLastSmall.__init__", props="C02",
+    params={"instance": OBJ}, ghosts={"W": PYINT, "H": PYINT}, i64=False,
+    attrs={"instance.bin_width": "W", "instance.bin_height": "H"}, summaries=_super,
+    ensures=[tag("C02", "bin-size-is-area", "self._bin_size == W * H")],
+)
